@@ -905,6 +905,19 @@ impl<'a> ReplayEvents<'a> {
             ref_override: Some(reference),
         }
     }
+
+    /// Replay a node that was captured where it is used. If the node was reached through an
+    /// alias (`use_site` differs from where its events were defined), the replay answers
+    /// [`Events::reference_location`] with the alias, like the live source did while the node
+    /// was being captured; a node written in place keeps the locations of its own events.
+    fn at_use_site(buf: Vec<Ev<'a>>, use_site: Location) -> Self {
+        let defined = buf.first().map(|ev| ev.location());
+        if use_site != Location::UNKNOWN && defined.is_some_and(|d| d != use_site) {
+            Self::with_reference(buf, use_site)
+        } else {
+            Self::new(buf)
+        }
+    }
 }
 
 impl<'a> Events<'a> for ReplayEvents<'a> {
@@ -2132,11 +2145,12 @@ impl<'de, 'e> de::Deserializer<'de> for YamlDeserializer<'de, 'e> {
                 seed: K,
                 events: Vec<Ev<'de2>>,
                 kemn: bool,
+                use_site: Location,
             ) -> Result<K::Value, Error>
             where
                 K: de::DeserializeSeed<'de2>,
             {
-                let mut replay = ReplayEvents::new(events);
+                let mut replay = ReplayEvents::at_use_site(events, use_site);
 
                 // Get location from replay events for error reporting.
                 let location = replay.reference_location();
@@ -2297,7 +2311,12 @@ impl<'de, 'e> de::Deserializer<'de> for YamlDeserializer<'de, 'e> {
                             }
                         }
 
-                        let key_value = self.deserialize_recorded_key(key_seed, events, kemn)?;
+                        let key_value = self.deserialize_recorded_key(
+                            key_seed,
+                            events,
+                            kemn,
+                            Location::UNKNOWN,
+                        )?;
                         self.have_key = true;
                         self.pending_value = Some((value_events, reference_location));
 
@@ -2443,8 +2462,12 @@ impl<'de, 'e> de::Deserializer<'de> for YamlDeserializer<'de, 'e> {
                                     }
                                 }
 
-                                let key_value =
-                                    self.deserialize_recorded_key(key_seed, events, kemn_direct)?;
+                                let key_value = self.deserialize_recorded_key(
+                                    key_seed,
+                                    events,
+                                    kemn_direct,
+                                    key_use_location,
+                                )?;
                                 self.have_key = true;
                                 self.pending_value = None; // value will be read live
 
@@ -2640,6 +2663,11 @@ impl<'de, 'e> de::Deserializer<'de> for YamlDeserializer<'de, 'e> {
 
         let mut tagged_enum = None;
 
+        // Where this node is used: the alias token if it is reached through one. A tagged
+        // payload is captured and replayed below, and the replay must keep that use-site.
+        let _ = self.ev.peek()?;
+        let use_site = self.ev.reference_location();
+
         let mode = match self.ev.peek()? {
             Some(Ev::Scalar {
                 tag,
@@ -2769,7 +2797,7 @@ impl<'de, 'e> de::Deserializer<'de> for YamlDeserializer<'de, 'e> {
                             None => return Err(Error::eof().with_location(self.ev.last_location())),
                         }
                     }
-                    let replay = Box::new(ReplayEvents::new(replay_events));
+                    let replay = Box::new(ReplayEvents::at_use_site(replay_events, use_site));
                     return visitor.visit_enum(TaggedEA {
                         replay,
                         cfg: self.cfg,
@@ -3089,7 +3117,7 @@ impl<'de, 'e> de::Deserializer<'de> for YamlDeserializer<'de, 'e> {
                 variant_location,
             },
             Mode::TaggedNewtype(variant, variant_location, replay_buf) => {
-                let replay = Box::new(ReplayEvents::new(replay_buf));
+                let replay = Box::new(ReplayEvents::at_use_site(replay_buf, use_site));
                 // We need to use a replay source for the payload
                 return visitor.visit_enum(TaggedEA {
                     replay,
